@@ -8,7 +8,7 @@ use air::ProofOptions;
 use crypto::{ElementHasher, RandomCoin};
 use prover::Prover;
 use simcore::{guard, Chooser, Ctx, PanicInfo};
-use utils::{Deserializable, ReadAdapter, Serializable};
+use utils::{ByteReader, Deserializable, ReadAdapter, Serializable};
 use verifier::{verify, AcceptableOptions};
 
 use crate::proto::*;
@@ -140,7 +140,15 @@ pub fn parse_streamed_faulty(
     let mut src = SimRead::new(&world, bytes, style, k, faults, &stats);
     let mut adapter = ReadAdapter::new(&mut src);
     stats.begin_op(64);
-    guard(|| Proof::read_from(&mut adapter))
+    guard(|| {
+        let r = Proof::read_from(&mut adapter);
+        // what a caller does next: is there anything left? (the look-ahead calls refill through
+        // a shared borrow of the source and may meet the next fault there)
+        let _ = adapter.has_more_bytes();
+        let _ = adapter.check_eor(1);
+        let _ = adapter.peek_u8();
+        r
+    })
 }
 
 /// Parse a proof from bytes delivered through ReadAdapter over a chunking SimRead.
